@@ -1,9 +1,94 @@
 import Olla.Driver.Util
+import Olla.Model.Body
+import Olla.Spec.C01
 
 namespace Olla.Driver.C01
-open Lean Olla.Driver
+open Lean Olla.Driver Olla.Model.Body Olla.Spec.C01
 
-/-- placeholder until the C01 driver is written -/
-def main : IO Unit := pure ()
+def peekMax : Nat := 1048576
+
+structure RSpec where
+  model : String
+  len : Nat
+  json : Bool
+  chunked : Bool
+  sha : String
+  body : Option (List UInt8)
+
+def parseReq (j : Json) : RSpec :=
+  { model := jstr (jget j "model"), len := jnat (jget j "len"), json := jbool (jget j "json"), chunked := jbool (jget j "chunked"),
+    sha := jstr (jget j "sha"), body := if jnat (jget j "len") ≤ 4096 then some (unhex (jstr (jget j "body_hex"))) else none }
+
+/-- Model name the inspector is expected to extract (JSON, non-empty, within the peek window). -/
+def expectedModel (r : RSpec) : String :=
+  if r.json && r.len > 0 && r.len ≤ peekMax then r.model else ""
+
+def handleOps (case : Nat) (j : Json) : IO Unit := do
+  let reqs := (jarr (jget j "reqs")).map parseReq
+  let ops := (jarr (jget j "ops")).map (fun o => (jstr (jget o "op"), jnat (jget o "i")))
+  let obs := jarr (jget (jget j "impl") "obs")
+  let allSmall := reqs.all (·.body.isSome)
+  let bodies : Nat → List UInt8 := fun i => ((reqs.getD i ⟨"", 0, false, false, "", none⟩).body).getD []
+  -- model at the harness's granularity: `inspect i` runs get/fill/restore/release atomically, `read`/`exec` the read step
+  let sched : List (Nat × Nat) := ops.flatMap (fun (o, i) => if o == "inspect" then [(i, 0), (i, 0), (i, 0), (i, 0)] else [(i, 0)])
+  let st := run .copy peekMax bodies sched
+  let results := (ops.zip obs).map (fun ((o, i), ob) =>
+    let r := reqs.getD i ⟨"", 0, false, false, "", none⟩
+    match o with
+    | "inspect" =>
+      let got := jstr (jget ob "model")
+      let want := expectedModel r
+      (got == want, got == want, s!"inspect {i}: model '{got}' expected '{want}'")
+    | "read" =>
+      let shaOk := jstr (jget ob "sha") == r.sha && jnat (jget ob "len") == r.len
+      let modelOk := if allSmall then (st.sent i) == some (unhex (jstr (jget ob "hex"))) else shaOk
+      (modelOk, shaOk, s!"read {i}: got {jnat (jget ob "len")} bytes sha {(jstr (jget ob "sha")).take 12} expected {r.len} bytes sha {r.sha.take 12}")
+    | _ =>
+      let atts := jstrList (jget ob "attempts")
+      let ok := atts.length == 2 && atts.all (· == r.sha)
+      (ok, ok, s!"exec {i}: attempts saw {atts.map (fun (a : String) => a.take 12)} expected 2 x {r.sha.take 12}"))
+  let agree := results.all (·.1)
+  let spec := results.all (·.2.1)
+  let firstBad := (results.find? (fun r => !r.2.1 || !r.1)).map (·.2.2) |>.getD ""
+  let interleaved := ops.length > 2 && (ops.zip (ops.drop 1)).any (fun (a, b) => a.2 != b.2)
+  let branch := (if allSmall then "ops.bytes" else "ops.big") ++ (if interleaved then ".interleaved" else "")
+  emit case agree spec branch (if spec then "" else "upstream-body-or-model-differs-from-client") firstBad
+
+def hexStr (s : String) : List Char := (String.fromUTF8! (ByteArray.mk (unhex s).toArray)).toList
+
+def handleStrip (case : Nat) (j : Json) : IO Unit := do
+  let path := hexStr (jstr (jget j "path_hex"))
+  let pre := hexStr (jstr (jget j "prefix_hex"))
+  let out := hexStr (jstr (jget (jget j "impl") "out_hex"))
+  let m := stripPrefix path pre
+  emit case (m == out) true (if pre.isPrefixOf path then "strip.prefix" else "strip.other") "" (if m == out then "" else s!"model {String.mk m} impl {String.mk out}")
+
+def handleStack (case : Nat) (j : Json) : IO Unit := do
+  let impl := jget j "impl"
+  if jstr (jget impl "start_err") != "" then
+    emit case false true "start-error" "" (jstr (jget impl "start_err")); return
+  let base := if jbool (jget j "preserve") then jstr (jget j "base") else ""
+  let rs := jarr (jget impl "requests")
+  let checked := rs.map (fun r =>
+    let e := jget r "echo"
+    if jisNull e then (false, true, s!"no echo: status {jnat (jget r "status")} err {jstr (jget r "err")} target {jstr (jget r "target")}") else
+    let sent : Req := { method := jstr (jget r "method"), path := jstr (jget r "rest"), query := jstr (jget r "query"), body := (jstr (jget r "sha")).toUTF8.toList }
+    let got : Req := { method := jstr (jget e "method"), path := jstr (jget e "path"), query := jstr (jget e "query"), body := (jstr (jget e "sha")).toUTF8.toList }
+    let ok := arrivedIntact sent base got && jnat (jget e "len") == jnat (jget r "len") && jstr (jget e "xmodel") == jstr (jget r "model")
+    (ok, ok, s!"sent {jstr (jget r "method")} {jstr (jget r "target")} body {jnat (jget r "len")}B sha {(jstr (jget r "sha")).take 12} model '{jstr (jget r "model")}'; backend got {jstr (jget e "method")} {jstr (jget e "path")}?{jstr (jget e "query")} body {jnat (jget e "len")}B sha {(jstr (jget e "sha")).take 12} X-Model '{jstr (jget e "xmodel")}'"))
+  let agree := checked.all (·.1)
+  let spec := checked.all (·.2.1)
+  let firstBad := (checked.find? (fun r => !r.2.1 || !r.1)).map (·.2.2) |>.getD ""
+  emit case agree spec s!"stack.{jstr (jget j "engine")}.n{jnat (jget j "clients")}" (if spec then "" else "upstream-request-differs-from-client") firstBad
+
+def handle (j : Json) : IO Unit := do
+  let case := jnat (jget j "case")
+  match jstr (jget j "kind") with
+  | "ops" => handleOps case j
+  | "strip" => handleStrip case j
+  | "stack" => handleStack case j
+  | k => emit case false true "unknown-kind" "" k
+
+def main : IO Unit := do forLines (← IO.getStdin) handle
 
 end Olla.Driver.C01
